@@ -2393,6 +2393,9 @@ class Evaluator:
             return [(state, ("disjoint", recv, a))]
         if name == "copy" and not args:
             return [(state, ("copyof", recv))]
+        if name == "get" and len(args) in (1, 2) and not kwargs and (self._is_dictlike(recv) or (recv[0] == "call" and recv[1] in ("dict", "defaultdict"))):
+            # d.get(k, default) = d[k] if k in d else default
+            return [(state, ("ite", ("in", args[0], recv), ("index", recv, args[0]), args[1] if len(args) == 2 else NONE))]
         if name == "get_base" and not args and self.typeof(recv) is None:
             return [(state, ("meth", recv, name, (), ()))]
         # statement-level mutation of a local value: record as effect on the variable
@@ -2408,8 +2411,11 @@ class Evaluator:
                 while isinstance(root, (ast.Attribute, ast.Subscript, ast.Call)):
                     root = root.value if not isinstance(root, ast.Call) else root.func
                 s2.notes = s2.notes + (("external-mutation", recv, name, tuple(args), tuple(sorted(kwargs.items())), line),)
+                eff_name, eff_args = name, tuple(args)
+                if name == "update" and len(args) == 1 and args[0][0] in ("setlit",) and len(args[0][1]) == 1 and args[0][1][0][0] != "star":
+                    eff_name, eff_args = "add", (args[0][1][0],)  # s.update({x}) = s.add(x)
                 if isinstance(root, ast.Name) and root.id in s2.env:
-                    s2.env[root.id] = self._add_effect(s2.env[root.id], ("deep", self._access_path(base, state, func), name, tuple(args)))
+                    s2.env[root.id] = self._add_effect(s2.env[root.id], ("deep", self._access_path(base, state, func), eff_name, eff_args))
                 return [(s2, NONE)]
         # CHA fallback: unique repo method of that name
         cands = [m for m in self.model.methods_by_name.get(name, []) if not m.name.startswith("__")]
